@@ -437,6 +437,13 @@ pub fn pair_id_injective() -> Option<String> {
     let h1 = root_pair_hash(Path::new(&a1), Path::new(&b1));
     let h2 = root_pair_hash(Path::new(&a2), Path::new(&b2));
     if h1 == h2 { return Some(format!("root_pair_hash({a1:?}, {b1:?}) == root_pair_hash({a2:?}, {b2:?}) = {h1}: two different pairs share one archive (C07)")); }
+    // directory names that differ only in a byte that is not valid UTF-8 are different directories
+    {
+        use std::os::unix::ffi::OsStrExt;
+        let mk = |b: u8, side: &str| -> PathBuf { let mut v = format!("{t}/caf").into_bytes(); v.push(b); v.extend(format!("/{side}").as_bytes()); PathBuf::from(std::ffi::OsStr::from_bytes(&v)) };
+        let (p1a, p1b, p2a, p2b) = (mk(0xE9, "A"), mk(0xE9, "B"), mk(0xE8, "A"), mk(0xE8, "B"));
+        if root_pair_hash(&p1a, &p1b) == root_pair_hash(&p2a, &p2b) { return Some("root_pair_hash gives ONE identifier to the pairs (caf\\xE9/A, caf\\xE9/B) and (caf\\xE8/A, caf\\xE8/B): two different directory pairs (names in a legacy encoding) share one archive (C07)".into()); }
+    }
     let h3 = root_pair_hash(Path::new(&b1), Path::new(&a1));
     if h3 == h1 { return Some("root_pair_hash is not order-sensitive (C07)".into()); }
     None
